@@ -253,7 +253,8 @@ CORPUS = [
     # D12: clone below a sibling of its first occurrence (x, y > x), plain and typed
     _d(False, ["s:x", "s:y"], [[0, None, None, []], [1, None, None, [[0, None, None, []]]]], mapper="none"),
     _d(True, ["s:x", "s:y"], [[0, "a", None, []], [1, "a", None, [[0, "a", None, []]]]], mapper="none"),
-    # D18: one data object under two explicit ids, and a real clone of the second
+    # D18: real clones of one object (default id) and, between them, the same object under an explicit id
+    _d(False, ["e:1", "s:r", "s:q"], [[0, None, None, []], [1, None, None, [[0, None, "x", []]]], [2, None, None, [[0, None, None, []]]]], km="false", vm="false"),
     _d(False, ["e:1", "s:r"], [[0, None, "k1", []], [1, None, None, [[0, None, "k2", []]]], [0, None, "k2", []]], km="false", vm="false"),
     # D19: TypedTree.save(compression=...)
     _d(True, ["s:x"], [[0, "a", None, []]], mapper="none", meta={"foo": "bar"}),
